@@ -17,15 +17,15 @@ open Evalexpr
 
 /-! ### evaluation of a node / a child list, written with `bindE` -/
 
-theorem evalMut_node (op : Operator) (cs : List Node) (s : St) :
+theorem seqEvalMut_node (op : Operator) (cs : List Node) (s : St) :
     (Node.mk op cs).evalMut s = bindE (evalMutList cs s) fun args s => op.evalMut args s := by
   rw [Node.evalMut]
   rcases evalMutList cs s with ⟨_ | v, s'⟩ <;> rfl
 
-theorem evalMutList_nil (s : St) : evalMutList [] s = (.ok [], s) := by
+theorem seqEvalMutList_nil (s : St) : evalMutList [] s = (.ok [], s) := by
   rw [evalMutList]
 
-theorem evalMutList_cons (c : Node) (cs : List Node) (s : St) :
+theorem seqEvalMutList_cons (c : Node) (cs : List Node) (s : St) :
     evalMutList (c :: cs) s =
       bindE (c.evalMut s) fun v s => bindE (evalMutList cs s) fun vs s => (.ok (v :: vs), s) := by
   rw [evalMutList]
@@ -129,13 +129,13 @@ theorem unkNode_toTree (e : Expr) : UnkNode (toTree e) := by
 
 theorem unkList_nil : UnkList [] := by
   intro s _
-  rw [evalMutList_nil]
+  rw [seqEvalMutList_nil]
   exact Unk.ok_pair
 
 theorem unkList_cons (c : Node) (cs : List Node) (hc : UnkNode c) (hcs : UnkList cs) :
     UnkList (c :: cs) := by
   intro s hnf
-  rw [evalMutList_cons, occList_cons_split]
+  rw [seqEvalMutList_cons, occList_cons_split]
   refine Unk.bindE ((hc s hnf).mono ?_) fun v _ => ?_
   · intro p hp; exact List.mem_append_left _ hp
   · refine Unk.bindE ((hcs _ (hnf.evalMut c)).mono ?_) fun vs _ => Unk.ok_pair
@@ -144,7 +144,7 @@ theorem unkList_cons (c : Node) (cs : List Node) (hc : UnkNode c) (hcs : UnkList
 theorem unkNode_group {op : Operator} (hop : isGroupOp op = true) (cs : List Node)
     (hcs : UnkList cs) : UnkNode ⟨op, cs⟩ := by
   intro s hnf
-  rw [evalMut_node, occList_cons_noIdent _ _ _ (groupOp_ident hop), occList_nil, List.append_nil]
+  rw [seqEvalMut_node, occList_cons_noIdent _ _ _ (groupOp_ident hop), occList_nil, List.append_nil]
   refine Unk.bindE (hcs s hnf) fun args _ => ?_
   rw [evalMut_pure (groupOp_notAssign hop) (groupOp_pure hop)]
   exact Unk.of_clean_pair (clean_evalPure _ _)
@@ -204,13 +204,13 @@ def SimList (r : Str → Str) (F : List (Str × UserFn)) (cs : List Node) : Prop
 
 theorem simList_nil (r : Str → Str) (F : List (Str × UserFn)) : SimList r F [] := by
   intro h log hh
-  rw [renameList_nil, evalMutList_nil, evalMutList_nil]
+  rw [renameList_nil, seqEvalMutList_nil, seqEvalMutList_nil]
   exact Sim.mk' hh rfl
 
 theorem simList_cons {r : Str → Str} {F : List (Str × UserFn)} (c : Node) (cs : List Node)
     (hc : SimNode r F c) (hcs : SimList r F cs) : SimList r F (c :: cs) := by
   intro h log hh
-  rw [renameList_cons, evalMutList_cons, evalMutList_cons]
+  rw [renameList_cons, seqEvalMutList_cons, seqEvalMutList_cons]
   refine Sim.bindE (hc h log hh) fun v h₁ log₁ hF₁ => ?_
   exact Sim.bindE (hcs h₁ log₁ hF₁) fun vs h₂ log₂ hF₂ => Sim.mk' hF₂ rfl
 
@@ -220,7 +220,7 @@ theorem simNode_group {r : Str → Str} {F : List (Str × UserFn)} {op : Operato
   intro h log hh
   have hrn : rnNode .variable r ⟨op, cs⟩ = ⟨op, renameList .variable r cs⟩ := by
     simp only [rnNode, groupOp_renameWith hop]
-  rw [hrn, evalMut_node, evalMut_node]
+  rw [hrn, seqEvalMut_node, seqEvalMut_node]
   refine Sim.bindE (hcs h log hh) fun args h₁ log₁ hF₁ => ?_
   rw [evalMut_pure (groupOp_notAssign hop) (groupOp_pure hop),
     evalMut_pure (groupOp_notAssign hop) (groupOp_pure hop)]
